@@ -374,6 +374,41 @@ func init() {
 		e.oblige(st, "nopanic.extern.cache.valuetype", x.Pos(), eq(args[2].(*IfaceV).Tag, cacheTag(args[0])))
 		return boolSV(e.fresh("cache.set", SBool))
 	}
+	// bufio.Scanner: Scan advances a ghost token counter; Text/Bytes/Err are functions of (scanner, tokens read so far)
+	scanCount := func(st *BState) *Term {
+		if v, ok := st.ghost["$scans"]; ok {
+			return scal(v)
+		}
+		return intLit(0)
+	}
+	externs["(*bufio.Scanner).Scan"] = func(e *Exec, st *BState, x *ssa.Call, args []SV) SV {
+		n := add(scanCount(st), intLit(1))
+		st.ghost["$scans"] = intSV(n)
+		ghostTypes["$scans"] = types.Typ[types.Int]
+		return boolSV(ufun("ext.bufio.Scanner.Scan", []string{SInt, SInt}, SBool, args[0].(*PtrV).Addr, n))
+	}
+	externs["(*bufio.Scanner).Text"] = func(e *Exec, st *BState, x *ssa.Call, args []SV) SV {
+		return &Scalar{T: ufun("ext.bufio.Scanner.Text", []string{SInt, SInt}, SStr, args[0].(*PtrV).Addr, scanCount(st)), Ty: x.Type()}
+	}
+	externs["(*bufio.Scanner).Err"] = func(e *Exec, st *BState, x *ssa.Call, args []SV) SV {
+		a, n := args[0].(*PtrV).Addr, scanCount(st)
+		return &IfaceV{Ty: x.Type(), Tag: ufun("ext.bufio.Scanner.Err.tag", []string{SInt, SInt}, SInt, a, n), Ref: ufun("ext.bufio.Scanner.Err.ref", []string{SInt, SInt}, SInt, a, n)}
+	}
+	externs["(*bufio.Scanner).Split"] = func(e *Exec, st *BState, x *ssa.Call, args []SV) SV { return &TupleV{} }
+	externs["(*bufio.Scanner).Buffer"] = func(e *Exec, st *BState, x *ssa.Call, args []SV) SV { return &TupleV{} }
+	// bytes.Index(data, []byte(sep)): the first occurrence, as an uninterpreted function of the data slice and the
+	// separator string (the []byte conversion is traced back to its string)
+	externs["bytes.Index"] = func(e *Exec, st *BState, x *ssa.Call, args []SV) SV {
+		d := args[0].(*SliceV)
+		sp := args[1].(*SliceV)
+		sepStr, ok := byteSliceOf[sp.Base]
+		if !ok {
+			return e.freshSV(x.Type(), "bytes.Index", st.reach, false)
+		}
+		r := ufun("ext.bytes.Index", []string{SInt, SInt, SInt, SStr}, SInt, d.Base, d.Off, d.Len, sepStr)
+		e.assume(or(eq(r, intLit(-1)), and(le(intLit(0), r), le(add(r, e.strLen(sepStr)), d.Len))))
+		return &Scalar{T: r, Ty: x.Type()}
+	}
 	// time model: (ns, aux)
 	tm := func(ns, aux *Term, t types.Type) SV {
 		return &StructV{Ty: t, Fields: []SV{&Scalar{T: ns}, &Scalar{T: aux}}}
@@ -565,6 +600,9 @@ func (e *Exec) callByContract(fr *Frame, st *BState, x *ssa.Call, f *ssa.Functio
 		cbCells := map[*ssa.Alloc]bool{}
 		assignedCells(f, map[*ssa.Function]bool{}, cbCells)
 		for a := range cbCells {
+			if ownedBy(a, f) {
+				continue // the callee's own locals (a fresh activation), not variables of the caller
+			}
 			if _, ok := st.cells[a]; ok {
 				nv := e.freshSV(a.Type().(*types.Pointer).Elem(), "call."+a.Comment, st.reach, false)
 				e.saneInput(st, a.Type().(*types.Pointer).Elem(), nv, tTrue)
@@ -660,4 +698,16 @@ func (e *Exec) havocOutTraces(st *BState, why string, out, outm bool) {
 			st.heap[netKey(g)] = e.fresh(why+".net."+g, sortArrII)
 		}
 	}
+}
+
+var byteSliceOf = map[*Term]*Term{} // base of a []byte(s) conversion result -> s
+
+// ownedBy: the variable is a local of f or of a function literal nested in f.
+func ownedBy(a *ssa.Alloc, f *ssa.Function) bool {
+	for p := a.Parent(); p != nil; p = p.Parent() {
+		if p == f {
+			return true
+		}
+	}
+	return false
 }
